@@ -91,6 +91,17 @@ func newIncomingContext(ctx context.Context, header http.Header) (context.Contex
 }
 
 func setOutgoingHeader(header http.Header, md metadata.MD) {
+	setOutgoingMD(header, md, "")
+}
+
+// setOutgoingTrailer sets trailer metadata. The keys are not known when the
+// headers are written, so they cannot be announced in the "Trailer" header:
+// http.TrailerPrefix marks them as trailers for net/http.
+func setOutgoingTrailer(header http.Header, md metadata.MD) {
+	setOutgoingMD(header, md, http.TrailerPrefix)
+}
+
+func setOutgoingMD(header http.Header, md metadata.MD, prefix string) {
 	for k, vs := range md {
 		if isReservedHeader(k) {
 			continue
@@ -103,7 +114,7 @@ func setOutgoingHeader(header http.Header, md metadata.MD) {
 			}
 			vs = dst
 		}
-		header[textproto.CanonicalMIMEHeaderKey(k)] = vs
+		header[prefix+textproto.CanonicalMIMEHeaderKey(k)] = vs
 	}
 }
 
@@ -601,13 +612,11 @@ func (m *Mux) serveGRPC(w http.ResponseWriter, r *http.Request) {
 			h.Set("Grpc-Status-Details-Bin", encodeBinHeader(stBytes))
 		}
 	}
-	setOutgoingHeader(h, stream.trailer)
+	setOutgoingTrailer(h, stream.trailer)
 
 	if sh := m.opts.statsHandler; sh != nil {
 		endTime := time.Now()
 
-		// Try to send Trailers, might not be respected.
-		setOutgoingHeader(w.Header(), stream.trailer)
 		sh.HandleRPC(ctx, &stats.OutTrailer{
 			Trailer: stream.trailer.Copy(),
 		})
